@@ -1,5 +1,5 @@
 """Shared plumbing: evidence files, known findings, exit codes, scratch dirs."""
-import json, os, sys, time, hashlib, subprocess, tempfile, shutil
+import re, json, os, sys, time, hashlib, subprocess, tempfile, shutil
 
 VERIF = os.path.dirname(os.path.dirname(os.path.abspath(__file__)))
 REPO = os.environ.get("VERIF_REPO", "/repo")
@@ -107,7 +107,7 @@ class Outcome:
         """key: stable identity of the failing case (matched against known findings)."""
         kf = known_findings()
         for f in kf.get("findings", []):
-            if f.get("property") == self.prop and f.get("key") == key:
+            if f.get("property") == self.prop and (f.get("key") == key or (f.get("key_regex") and re.fullmatch(f["key_regex"], key, re.S))):
                 self.known.append({"what": f.get("what", what), "key": key})
                 return
         os.makedirs(REPLAYS, exist_ok=True)
@@ -141,8 +141,8 @@ class Outcome:
         os.makedirs(EVID, exist_ok=True)
         with open(os.path.join(EVID, self.prop + ".json"), "w") as f:
             json.dump(ev, f, indent=1, sort_keys=False)
-        for k in self.known:
-            print("KNOWN-FINDING: property=%s %s" % (self.prop, k["what"]))
+        for w in sorted({k["what"] for k in self.known}):       # one line per listed finding, however many cases matched it
+            print("KNOWN-FINDING: property=%s %s" % (self.prop, w))
         for v in self.violations:
             print("VIOLATION property=%s replay=%s" % (self.prop, v["replay"]))
             print("  " + v["what"])
